@@ -41,9 +41,27 @@ MirrorOK(Q) == /\ CanonV(Q.vecs) = CanonV(E.obs.vecs)
 \* evaluated on the observed order
 BagOf(q, x) == Cardinality({i \in DOMAIN q : q[i] = x})
 SameBag(a, b) == Len(a) = Len(b) /\ (\A i \in DOMAIN a : BagOf(a, a[i]) = BagOf(b, a[i]))
+\* A plain callback may remove a LATER-registered one from inside a dispatch (cb.rm).  How many of the current message's events
+\* the removed callback still sees depends on the order in which the events of one message are raised - which C16 leaves open.
+\* So: callbacks that nobody removes during this step are compared exactly (per callback, in order); a callback that is being
+\* removed may only have been called for events it accepts, each at most once.
+RmTargets == {C.cbs[i].rm : i \in DOMAIN C.cbs} \ {0}
+CallsOf(cs, id) == SelectSeq(cs, LAMBDA c : c[1] = id)
+CbOf(id) == C.cbs[CHOOSE i \in DOMAIN C.cbs : C.cbs[i].id = id]
+CallsOK(Q) ==
+  IF RmTargets = {} \/ E.o # "recv" THEN SameBag(Q.calls, CanonC(E.obs.calls))
+  ELSE LET oc == CanonC(E.obs.calls)
+           want == ExpectedCalls(C.cbs, CanonE(E.obs.evs)) IN
+       /\ \A i \in DOMAIN C.cbs : C.cbs[i].id \notin RmTargets /\ ~C.cbs[i].coro => CallsOf(oc, C.cbs[i].id) = CallsOf(want, C.cbs[i].id)
+       /\ \A k \in DOMAIN oc : oc[k][1] \in RmTargets =>
+              /\ \E i \in DOMAIN C.cbs : C.cbs[i].id = oc[k][1]
+              /\ BagOf(CallsOf(want, oc[k][1]), oc[k]) >= BagOf(oc, oc[k])
+       \* never after removal: once the removing callback has been invoked, the removed one is not invoked any more
+       /\ \A i \in DOMAIN C.cbs : C.cbs[i].rm # 0 =>
+              \A j \in DOMAIN oc : \A k \in DOMAIN oc : (j < k /\ oc[j][1] = C.cbs[i].id) => oc[k][1] # C.cbs[i].rm
 EventsOK(Q) == /\ SameBag(Q.evs, CanonE(E.obs.evs))
-               /\ SameBag(Q.calls, CanonC(E.obs.calls))
-               /\ Len(Q.tasks) = E.obs.ntasks
+               /\ CallsOK(Q)
+               /\ ((\A i \in DOMAIN C.cbs : C.cbs[i].id \in RmTargets => ~C.cbs[i].coro) \/ E.o # "recv" => Len(Q.tasks) = E.obs.ntasks)
                \* the statements of C16 on the observed events themselves
                /\ Hist[1]
                /\ LastIsCurrent(ObsMirror, Hist[2])
